@@ -203,10 +203,19 @@ def wl_long(ctx, rng, case):
     cfg.capacity = rng.choice([1, 2, 3])
     cfg.bucket_size = rng.choice([1, 2, 2, 3])
     cfg.max_swaps = rng.choice([2, 3, 5, 8])
-    keys = ck.with_zero_fp_keys(ctx, rng, cfg, ck.gen_keys(rng, cfg, rng.randint(20, 50)))
+    nkeys, nops = rng.randint(20, 50), rng.randint(40, 100)
+    if case.index % 3 == 1:
+        # WIDE buckets (9 .. 24 slots) in a table of two or three buckets that cannot grow for a while: buckets fill up, kicks succeed inside
+        # them, keys that are present are added again
+        cfg.bucket_size, cfg.capacity, cfg.max_swaps = rng.randint(9, 24), rng.choice([2, 3]), rng.choice([5, 8, 20])
+        cfg.auto_expand = rng.random() < 0.5
+        nkeys = cfg.capacity * cfg.bucket_size + rng.randint(2, 10)
+        nops = 3 * nkeys
+        ctx.count("long_histories_on_wide_buckets")
+    keys = ck.with_zero_fp_keys(ctx, rng, cfg, ck.gen_keys(rng, cfg, nkeys))
     if len(keys) < 10:
         return
-    ops = ck.gen_history(rng, keys, rng.randint(40, 100), p_remove=0.25, p_expand=0.03, p_reload=0.05)
+    ops = ck.gen_history(rng, keys, nops, p_remove=0.25 if nops < 101 else 0.1, p_expand=0.03 if nops < 101 else 0.0, p_reload=0.05)
     case.desc = dict(cfg.desc(), n_keys=len(keys), kind="long history")
     for op in ops[:60]:
         case.op(*op)
